@@ -44,9 +44,26 @@ def ser_alt(c) -> str:
     raise Unsupported(type(c).__name__)
 
 
+# classes met in a rule table that the model has no constructor for, but which derive from one it has: serialised as that base
+# class (the model then answers for the base class, and any behaviour the subclass changes shows as a disagreement) and reported
+UNKNOWN_SUBCLASSES: set = set()
+
+
+def _known_classes():
+    return (X.String, X.CIString, X.Range, X.Identifier, X.Sequence, X.Choice, X.Optional, X.Repeat, X.RepeatOnce, X.RepeatExact,
+            X.RepeatMin, X.RepeatMax, X.RepeatMinMax, X.PositivePredicate, X.NegativePredicate, X.Group, X.Push, X.PushLiteral, X.Peek,
+            X.Pop, X.Drop, X.PeekAll, X.PopAll, X.PeekSlice, special._Any, special._SOI, special._EOI, RegexExpression, X.SkipUntil,  # noqa: SLF001
+            X.OptimizedChoice, X.OptimizedChoiceRepeat)
+
+
 def ser_expr(e, uprops: set | None = None) -> str:  # noqa: PLR0911, PLR0912
     r = lambda x: ser_expr(x, uprops)  # noqa: E731
     t = type(e)
+    if not isinstance(e, Rule) and t not in _known_classes():
+        base = next((b for b in t.__mro__[1:] if b in _known_classes()), None)
+        if base is not None:
+            UNKNOWN_SUBCLASSES.add(t.__name__)
+            t = base
     if t is X.String:
         return f"S {enc_str(e.value)}"
     if t is X.CIString:
